@@ -174,6 +174,12 @@ func runC19(c *eng.Ctx) {
 			_, twice := eng.Reaches(f, s.Instr, ways, nil)
 			c.Check(!twice, fmt.Sprintf("not-both[%d]", i), s.Instr, f, "a stage is not run twice (inline and submitted)", "both reachable on one path")
 		}
+		// Execute itself never calls a handler: the task (or the inline run) owns the single handler call; whether the pool
+		// accepted a submitted task is not observable, so a handler call next to Submit completes the stage a second time
+		for i, s := range p.SitesDirect(f, eng.CallTo("param:completeHandle", "param:errHandle", "local:completeHandle", "local:errHandle")) {
+			c.Check(false, fmt.Sprintf("no-handler-call-outside-the-run[%d]", i), s.Instr, f,
+				"baseStage.Execute hands the handlers to the inline run or to the submitted task and calls neither itself", "direct handler call in Execute")
+		}
 		for _, s := range submit {
 			task := eng.CallArgs(s.Instr.(*ssa.Call))[1]
 			nt, ok := task.(*ssa.Call)
@@ -491,6 +497,28 @@ func runC19(c *eng.Ctx) {
 
 	// ---- 7b. the task's error is a latch: once a failure is recorded, no later event lowers it to "no error" ---------------------------
 	c.Rule("ERRFLOW", "query/context.baseTaskContext.err{latched}", func() { taskErrorLatched(c) })
+
+	// ---- 7c. a leaf request whose pipeline was started is answered by the pipeline's callback only -------------------------------------
+	c.Rule("PROV", "query.leafTaskProcessor.processDataSearch{after Execute the answer belongs to the callback}", func() {
+		f := c.Fn("query.leafTaskProcessor.processDataSearch")
+		ex := c.One(f, invokeOn("", "Execute"), "pipeline.Execute(metadata lookup stage)")
+		n := 0
+		for _, b := range f.Blocks {
+			r, ok := b.Instrs[len(b.Instrs)-1].(*ssa.Return)
+			if !ok || b == f.Recover || len(r.Results) == 0 {
+				continue
+			}
+			if _, after := eng.Reaches(f, ex.Instr, []eng.Site{{Fn: f, Instr: r}}, nil); !after {
+				continue
+			}
+			n++
+			ev := r.Results[len(r.Results)-1]
+			c.Check(eng.IsNilConst(ev), fmt.Sprintf("returns-nil-once-the-pipeline-runs[%d]", n), r, f,
+				"once pipeline.Execute was called, processDataSearch returns nil: the completion callback answers the request (SendResponse, CAS-guarded), and TaskHandler.process answers again for every error Process returns",
+				"returns "+p.Desc(ev))
+		}
+		c.Check(n > 0, "exit-after-execute-found", nil, f, "processDataSearch returns after starting the pipeline", "")
+	})
 
 	// ---- 8a. a stage that was counted as pending is given back also when STARTING it panics --------------------------------------------
 	c.Rule("TYPESTATE", plT+".executeStage{a counted stage is completed when starting it panics}", func() {
